@@ -1094,22 +1094,23 @@ def c06_regions(desc):
         for (a, e, _) in spans:
             if any(a + 2 <= t < e for t in cuts):
                 regs.add("incomplete-reset")
-        for (a, e, _) in spans[:-1]:
-            if e not in cuts:
-                regs.add("advance-skip")
+        # a frame for a unit that is not served resets the buffer: bytes behind it in the same read are lost
+        units = desc["units"]
+        if not (0 in units or 255 in units):
+            for (a, e, _), f in zip(spans, desc["frames"]):
+                if f[1] not in units and e != spans[-1][1] and e not in cuts:
+                    regs.add("bin-foreign")
     return regs
 
 
 def c11_regions(desc):
     regs = set()
     if desc["kind"] == "rtu":
-        if desc["client"] and desc.get("max_hdr_len", 0) > 65536:
-            regs.add("fifo-size")
+        if desc["client"] and desc.get("max_hdr_len", 0) > WINDOW:
+            regs.add("fifo-extent")
         if desc.get("garbage") == "undecodable" and not desc["reset"]:
             regs.add("undecodable-deaf")
     else:
-        if desc["per_read"] > 1:
-            regs.add("advance-skip")
         g = b"".join(bytes.fromhex(c) for c in desc["chunks"][:desc["ngarb"]])
         if not desc["reset"] and any(g[i] == 0x7b and 0x7d in g[i + 1:i + 3] for i in range(len(g))):
             regs.add("short-brace")
@@ -1124,12 +1125,11 @@ FINDING_OF = {
     ("C06", "escaping"): "F-C06-binary-escaping", ("C06", "incomplete-reset"): "F-C06-binary-incomplete-reset",
     ("C06", "mei"): "F-C06-rtu-mei-partial-raises",
     ("C06", "size"): "F-C06-rtu-size-oracle", ("C06", "pdu"): "F-C06-rtubin-pdu-not-decodable",
-    ("C06", "advance-skip"): "F-C06-binary-advance-skips-byte", ("C11", "advance-skip"): "F-C11-binary-several-per-read",
-    ("C07", "stale-start"): "F-C07-binary-stale-start",
-    ("C11", "fifo-size"): "F-C11-rtu-fifo-size",
+    ("C06", "bin-foreign"): "F-C06-binary-foreign-unit-resets-read",
+    ("C11", "fifo-extent"): "F-C11-rtu-fifo-extent",
     ("C11", "undecodable-deaf"): "F-C11-rtubin-undecodable-frame-deaf", ("C11", "short-brace"): "F-C11-binary-short-brace-deaf",
 }
-ORDER = ["escaping", "size", "pdu", "mei", "one-per-call", "incomplete-reset", "advance-skip", "several-per-read", "fifo-size",
+ORDER = ["escaping", "size", "pdu", "mei", "incomplete-reset", "bin-foreign", "fifo-extent",
          "undecodable-deaf", "short-brace", "stale-start"]
 
 
@@ -1152,9 +1152,9 @@ def regions_for(pid, suite, desc):
     if suite == "b_c11h":
         if desc.get("escaped"):      # an exception that escapes a serial handler is never a known finding
             return set()
-        return {"advance-skip"} if desc["kind"] == "bin" and desc["per_read"] > 1 else set()
+        return set()
     if suite == "b_c07":
-        return {"stale-start"} if desc["kind"] == "bin" and desc.get("stale") else set()
+        return set()
     return set()
 
 
